@@ -1,4 +1,410 @@
-import DuneVerif.Model.C03
+/-
+C03 — ParallelIndexSet is the sorted global→local map its resize history describes.
+
+Property theorems only (helper lemmas live in Proofs/C03*.lean).  Everything is about the executable model
+Model/C03.lean (`run`, `step`, `existsL`, `atL`, `getL`, `search`, `mergeLoop`, `sortFresh`, `renumFrom`,
+`lookupAuto`, …) and quantifies over ALL histories `h : List Op`, all lists / sizes (including `[]` and one
+element), all global indices.  The *specification* side (`specRun`, `WF`: Proofs/C03Spec.lean) is a bag of pairs
+replayed along the history without any order, sorting, merging or searching:
+  `WF h`  =  every set the history passes through has pairwise distinct global indices (the property's quantifier
+             for the lookup/contents claims);  theorems without `WF` hold for equal globals as well.
+-/
+import DuneVerif.Proofs.C03Spec
+
 namespace DV.C03
-theorem placeholder : True := trivial
+
+/-! ## a concrete history used by the non-vacuity examples
+two resize phases: add 5,2,9 (unsorted) · delete 5, re-add 5 with other data, add 7 · then renumber -/
+def demo : List Op :=
+  [.beginResize, .add 5 3 1 true, .add 2 0 0 false, .add 9 4 2 true, .endResize,
+   .beginResize, .add 5 8 3 false, .markDel 5 1, .add 7 1 0 true, .endResize, .renumber]
+
+example : WF demo := by decide
+example : (run demo).st = .ground := by decide
+example : globals (run demo).loc = [2, 5, 7, 9] := by decide
+example : (run demo).seq = 2 := by decide
+
+/-! ## contents and order -/
+
+/-- GROUND state after any well-formed history: the stored sequence is exactly the pairs added and not deleted
+(a permutation of the specification's bag), and it is *the* sorted arrangement of that bag. -/
+theorem ground_contents (h : List Op) (hwf : WF h) (hg : (run h).st = .ground) :
+    (run h).loc.Perm (specRun h).cur ∧ (run h).loc = sortFresh (specRun h).cur := by
+  obtain ⟨hsim, hn⟩ := sim_run h hwf
+  have hinv := run_inv h
+  have hperm : (run h).loc.Perm (specRun h).cur := by
+    have := hsim.cur
+    rwa [map_revalid_of_allValid (hinv.ground hg).2] at this
+  refine ⟨hperm, ?_⟩
+  exact sorted_perm_unique _ _ hinv.sorted (sortFresh_sorted _) (hperm.trans (sortFresh_perm _).symm)
+    (hsim.strict hinv hn).keysNodup
+
+example : (specRun demo).cur.length = 4 ∧ (run demo).loc.length = 4 := by decide
+
+/-- in an open resize phase the old pairs are still all there; exactly the ones marked deleted carry DELETED -/
+theorem resize_contents (h : List Op) (hwf : WF h) :
+    ((run h).loc.map revalid).Perm (specRun h).cur ∧ (run h).fresh.Perm (specRun h).add ∧
+    ∀ p ∈ (run h).loc, (p.l.valid = false ↔ key p ∈ (specRun h).del) :=
+  let hs := (sim_run h hwf).1
+  ⟨hs.cur, hs.fresh, hs.marks⟩
+
+/-- iteration is strictly ascending in the global index (pairwise distinct globals) -/
+theorem iter_strictly_ascending (h : List Op) (hwf : WF h) : StrictG (run h).loc :=
+  let ⟨hsim, hn⟩ := sim_run h hwf
+  hsim.strict (run_inv h) hn
+
+/-- ordering claim for ALL histories, equal global indices with different attributes included:
+iteration is ascending in (global, attribute) -/
+theorem iter_ascending_lex (h : List Op) : SortedLex (run h).loc := (run_inv h).sorted
+
+/-- equal globals, different attributes -/
+def demoDup : List Op := [.beginResize, .add 4 0 2 true, .add 4 1 0 true, .add 1 2 3 false, .endResize]
+example : (run demoDup).loc.map key = [(1, 3), (4, 0), (4, 2)] := by decide
+
+/-- after every history: in GROUND state nothing is pending and no stored pair is marked DELETED -/
+theorem ground_clean (h : List Op) (hg : (run h).st = .ground) : (run h).fresh = [] ∧ AllValid (run h).loc :=
+  (run_inv h).ground hg
+
+/-! ## the merge and the sort, for arbitrary lists -/
+
+/-- the three-way merge keeps exactly the old entries not marked DELETED plus all added ones -/
+theorem merge_contents (old added : List Pair) :
+    (mergeLoop old added).Perm (old.filter (·.l.valid) ++ added) := mergeLoop_perm old added
+
+/-- … and yields an ascending sequence from ascending inputs -/
+theorem merge_ascending (old added : List Pair) (h1 : SortedLex old) (h2 : SortedLex added) :
+    SortedLex (mergeLoop old added) := mergeLoop_sorted old added h1 h2
+
+/-- one completed `endResize` from any state satisfying the invariant of reachable states -/
+theorem endResize_contents (s s' : ISet) (hinv : Inv s) (h : endResize s = .ok s') :
+    s'.loc.Perm (s.loc.filter (·.l.valid) ++ s.fresh) ∧ SortedLex s'.loc ∧ AllValid s'.loc ∧ s'.fresh = [] :=
+  let ⟨h1, h2, h3, h4, _⟩ := endResize_spec hinv h
+  ⟨h1, h2, h3, h4⟩
+
+/-- modelling `std::sort` by insertion sort loses nothing: with pairwise distinct (global, attribute) the ascending
+arrangement of a bag is unique, so every sorting algorithm returns `sortFresh xs` -/
+theorem sort_unique (xs ys : List Pair) (hp : ys.Perm xs) (hs : SortedLex ys) (hk : KeysNodup ys) :
+    ys = sortFresh xs :=
+  sorted_perm_unique ys (sortFresh xs) hs (sortFresh_sorted xs) (hp.trans (sortFresh_perm xs).symm) hk
+
+example : sortFresh [⟨5, ⟨0,0,true,true⟩⟩, ⟨-1, ⟨1,0,true,true⟩⟩, ⟨3, ⟨2,1,false,true⟩⟩] =
+    [⟨-1, ⟨1,0,true,true⟩⟩, ⟨3, ⟨2,1,false,true⟩⟩, ⟨5, ⟨0,0,true,true⟩⟩] := by decide
+
+/-! ## lookups: every size, including 0 and 1 -/
+
+/-- the binary search terminates within its fuel and never reads outside the list — for EVERY list (sorted or
+not), every size, every global index; on a non-empty list the result is a valid position -/
+theorem search_terminates (xs : List Pair) (g : Int) :
+    ∃ r, search xs g = some r ∧ 0 ≤ r ∧ (xs ≠ [] → r < xs.length) := search_total xs g
+
+/-- hence `exists` and `at` are defined (no undefined behaviour) on every list, `operator[]` on every non-empty one -/
+theorem lookups_total (xs : List Pair) (g : Int) :
+    (existsL xs g).isSome ∧ (atL xs g).isSome ∧ (xs ≠ [] → (getL xs g).isSome) := by
+  obtain ⟨r, hr, h0, h1⟩ := search_total xs g
+  by_cases hne : xs = []
+  · subst hne; simp [existsL, atL, hr]
+  · have hlen : xs.length ≠ 0 := fun h => hne (List.eq_nil_of_length_eq_zero h)
+    obtain ⟨p, hp⟩ := pAt_isSome (xs := xs) h0 (h1 hne)
+    have hg : gAt xs r = some p.g := gAt_some_iff.2 ⟨p, hp, rfl⟩
+    refine ⟨?_, ?_, fun _ => ?_⟩
+    · simp only [existsL, hr, hlen, if_false, hg]; split <;> rfl
+    · simp only [atL, hr, hlen, if_false, hp]; split <;> rfl
+    · simp [getL, hr, hp]
+
+/-- `exists(g)` is true exactly for the stored global indices — on every ascending list … -/
+theorem exists_iff_sorted (xs : List Pair) (hs : SortedG xs) (g : Int) :
+    existsL xs g = some (decide (g ∈ globals xs)) := existsL_spec xs g hs
+
+/-- … in particular on the empty and on every one-element set (the case the unrepaired code got wrong) … -/
+theorem exists_empty (g : Int) : existsL [] g = some false := by
+  simpa [globals] using existsL_spec [] g (by simp [SortedG])
+
+theorem exists_singleton (p : Pair) (g : Int) : existsL [p] g = some (decide (g = p.g)) := by
+  simpa [globals] using existsL_spec [p] g (by simp [SortedG])
+
+/-- … and after EVERY history (no well-formedness needed) -/
+theorem exists_iff (h : List Op) (g : Int) :
+    existsL (run h).loc g = some (decide (g ∈ globals (run h).loc)) :=
+  existsL_spec _ g (run_inv h).sorted.sortedG
+
+/-- in terms of the specification: exists(g) ⇔ some pair with global g was added and not deleted -/
+theorem exists_iff_spec (h : List Op) (hwf : WF h) (g : Int) :
+    existsL (run h).loc g = some (decide (g ∈ globals (specRun h).cur)) := by
+  rw [exists_iff]
+  have := (sim_run h hwf).1.globals_eq.mem_iff (a := g)
+  simp only [this]
+
+example : existsL (run demo).loc 7 = some true ∧ existsL (run demo).loc 6 = some false := by decide
+
+/-- checked access returns precisely the stored pair … -/
+theorem at_found (h : List Op) (hwf : WF h) (p : Pair) (hp : p ∈ (run h).loc) :
+    atL (run h).loc p.g = some (.ok p) := by
+  rw [atL_spec _ _ (run_inv h).sorted.sortedG, find_of_strict (iter_strictly_ascending h hwf) hp]
+
+/-- … and reports absence (RangeError) for every other global index — all histories -/
+theorem at_absent_error (h : List Op) (g : Int) (hg : g ∉ globals (run h).loc) :
+    atL (run h).loc g = some (.error .range) := by
+  rw [atL_spec _ _ (run_inv h).sorted.sortedG]
+  have : (run h).loc.find? (·.g == g) = none := by
+    rw [List.find?_eq_none]
+    intro x hx hxg
+    exact hg (List.mem_map.2 ⟨x, hx, by simpa using hxg⟩)
+  rw [this]
+
+/-- all histories (equal globals allowed): `at` returns the first stored pair with this global index, else RangeError -/
+theorem at_first (h : List Op) (g : Int) :
+    atL (run h).loc g = some (match (run h).loc.find? (·.g == g) with | some p => .ok p | none => .error .range) :=
+  atL_spec _ _ (run_inv h).sorted.sortedG
+
+theorem at_singleton (p : Pair) : atL [p] p.g = some (.ok p) := by
+  rw [atL_spec [p] p.g (by simp [SortedG])]; simp
+
+/-- unchecked access `operator[]` returns precisely the stored pair (and its position) when the index is present -/
+theorem getElem_found (h : List Op) (hwf : WF h) (p : Pair) (hp : p ∈ (run h).loc) :
+    ∃ i, getL (run h).loc p.g = some (i, p) ∧ (run h).loc[i]? = some p := by
+  have hmem : p.g ∈ globals (run h).loc := List.mem_map.2 ⟨p, hp, rfl⟩
+  obtain ⟨i, q, h1, h2, h3⟩ := getL_spec _ p.g (run_inv h).sorted.sortedG hmem
+  rw [find_of_strict (iter_strictly_ascending h hwf) hp] at h3
+  cases h3
+  exact ⟨i, h1, h2⟩
+
+example : atL (run demo).loc 5 = some (.ok ⟨5, ⟨1, 3, false, true⟩⟩) := rfl
+example : atL (run demo).loc 4 = some (.error .range) := rfl
+
+/-! ## sequence number -/
+
+/-- `seqNo` changes exactly when an `endResize` completes, and then by one -/
+theorem seq_step (s : ISet) (op : Op) :
+    (step s op).1.seq = s.seq + (if op = .endResize ∧ s.st = .resize then 1 else 0) := by
+  cases op with
+  | endResize =>
+    simp only [step]
+    cases h : endResize s with
+    | error e =>
+      have hst : s.st ≠ .resize := by intro hst; simp [endResize, hst] at h
+      simp [lift, hst]
+    | ok s' =>
+      obtain ⟨hst, _, _, h3, _⟩ := endResize_ok h
+      simp [lift, hst, h3]
+  | beginResize => simp only [step, beginResize]; split <;> simp [lift]
+  | add g l a p => simp only [step, add]; split <;> simp [lift]
+  | addG g => simp only [step, add]; split <;> simp [lift]
+  | markDel g a =>
+    simp only [step]; split
+    · simp
+    · simp only [markAsDeleted]; split <;> simp [lift]
+  | renumber => simp only [step, renumberLocal]; split <;> simp [lift]
+  | setLocal g l =>
+    simp only [step]; split
+    · split
+      · simp
+      · next s' h => obtain ⟨i, p, _, rfl⟩ := setLocalVia_some h; simp
+    · simp
+  | get g => simp only [step]; split <;> simp
+  | lookupN n => simp only [step]; split <;> simp
+  | exists_ g => simp [step]
+  | at_ g => simp [step]
+  | seqNo => simp [step]
+  | size => simp [step]
+  | state => simp [step]
+  | dump => simp [step]
+  | lookup => simp [step]
+
+/-- the sequence number never decreases along a history … -/
+theorem seq_mono (h h' : List Op) : (run h).seq ≤ (run (h ++ h')).seq := by
+  unfold run
+  rw [runFrom_append]
+  generalize (runFrom init h).1 = s
+  induction h' generalizing s with
+  | nil => exact Nat.le_refl _
+  | cons op ops ih =>
+    simp only [runFrom]
+    have := seq_step s op
+    exact Nat.le_trans (by omega) (ih (step s op).1)
+
+/-- … and strictly increases with every completed resize -/
+theorem seq_strict_mono (h : List Op) (hr : (run h).st = .resize) :
+    (run (h ++ [.endResize])).seq = (run h).seq + 1 ∧ (run (h ++ [.endResize])).st = .ground := by
+  unfold run at *
+  rw [runFrom_append]
+  generalize (runFrom init h).1 = s at *
+  simp only [runFrom, step]
+  cases he : endResize s with
+  | error e => simp [endResize, hr] at he
+  | ok s' =>
+    obtain ⟨_, _, _, h3, h4, _⟩ := endResize_ok he
+    exact ⟨h3, h4⟩
+
+/-- it equals the specification's count of completed resizes -/
+theorem seq_eq_spec (h : List Op) (hwf : WF h) : (run h).seq = (specRun h).seq := (sim_run h hwf).1.seq
+
+example : (run (demo ++ [.beginResize])).st = .resize := by decide
+
+/-! ## renumbering -/
+
+/-- `renumberLocal` in GROUND state assigns the consecutive numbers 0,1,2,… in iteration (= global) order and
+changes nothing else -/
+theorem renumber_spec (h : List Op) (hg : (run h).st = .ground) :
+    (run (h ++ [.renumber])).loc.length = (run h).loc.length ∧
+    ∀ (i : Nat) (p : Pair), (run h).loc[i]? = some p → (run (h ++ [.renumber])).loc[i]? = some (setLoc p i) := by
+  unfold run at *
+  rw [runFrom_append]
+  generalize (runFrom init h).1 = s at *
+  have hne : ¬ s.st = .resize := by rw [hg]; intro h; cases h
+  simp only [runFrom, step, renumberLocal, hne, if_false, lift]
+  refine ⟨renumFrom_length 0 s.loc, ?_⟩
+  intro i p hp
+  rw [renumFrom_getElem?, hp]
+  simp
+
+/-- equivalently: the new local number of a pair is the number of stored pairs with a smaller global index -/
+theorem renumber_rank (h : List Op) (hwf : WF h) (hg : (run h).st = .ground) :
+    (run (h ++ [.renumber])).loc = (run h).loc.map fun p => setLoc p (rank p (run h).loc) := by
+  have hstrict := iter_strictly_ascending h hwf
+  unfold run at *
+  rw [runFrom_append]
+  generalize (runFrom init h).1 = s at *
+  have hne : ¬ s.st = .resize := by rw [hg]; intro h; cases h
+  simp only [runFrom, step, renumberLocal, hne, if_false, lift]
+  rw [renumFrom_eq_rank 0 s.loc hstrict.before]
+  simp
+
+example : (run demo).loc.map (·.l.loc) = [0, 1, 2, 3] := by decide
+
+/-! ## reverse lookup (GlobalLookupIndexSet) -/
+
+theorem eq_of_nodup_map {β : Type} (f : Pair → β) : ∀ (xs : List Pair), (xs.map f).Nodup →
+    ∀ p ∈ xs, ∀ q ∈ xs, f p = f q → p = q
+  | [], _, p, hp, _, _, _ => by cases hp
+  | x :: xs, hn, p, hp, q, hq, hf => by
+    simp only [List.map_cons, List.nodup_cons] at hn
+    rcases List.mem_cons.1 hp with hpx | hp'
+    · rcases List.mem_cons.1 hq with hqx | hq'
+      · rw [hpx, hqx]
+      · exact absurd (by rw [← hpx, hf]; exact List.mem_map.2 ⟨q, hq', rfl⟩) hn.1
+    · rcases List.mem_cons.1 hq with hqx | hq'
+      · exact absurd (by rw [← hqx, ← hf]; exact List.mem_map.2 ⟨p, hp', rfl⟩) hn.1
+      · exact eq_of_nodup_map f xs hn.2 p hp' q hq' hf
+
+/-- `GlobalLookupIndexSet(set)`: when the local numbers are pairwise distinct the table inverts the map —
+`pair(p.local) = p` for every stored pair, null for every number no pair carries; its size is max local + 1 -/
+theorem reverse_lookup_inverts (xs : List Pair) (hd : (xs.map (·.l.loc)).Nodup) :
+    ∃ t, lookupAuto xs = some t ∧ t.length = maxLocal xs 0 + 1 ∧
+      (∀ p ∈ xs, tablePair t p.l.loc = some p) ∧
+      (∀ j, (∀ p ∈ xs, p.l.loc ≠ j) → tablePair t j = none) := by
+  have hb : ∀ p ∈ xs, p.l.loc < (List.replicate (maxLocal xs 0 + 1) (none : Option Pair)).length := by
+    intro p hp
+    have := (maxLocal_ge xs 0).2 p hp
+    simp; omega
+  obtain ⟨t, h1, h2, h3, h4⟩ := fillTable_spec xs _ hb
+  refine ⟨t, h1, by simpa using h2, ?_, ?_⟩
+  · intro p hp
+    obtain ⟨q, hq, hql, hqt⟩ := h4 p hp
+    have : q = p := eq_of_nodup_map (·.l.loc) xs hd q hq p hp hql
+    subst this
+    simp [tablePair, hqt]
+  · intro j hj
+    have := h3 j hj
+    unfold tablePair
+    rw [this]
+    by_cases hjl : j < maxLocal xs 0 + 1
+    · simp [hjl]
+    · simp [hjl]
+
+/-- the same for `GlobalLookupIndexSet(set, n)` whenever every local number is below `n` (the constructor's assert) -/
+theorem reverse_lookup_sized (xs : List Pair) (n : Nat) (hb : ∀ p ∈ xs, p.l.loc < n) (hd : (xs.map (·.l.loc)).Nodup) :
+    ∃ t, lookupSized xs n = some t ∧ t.length = n ∧
+      (∀ p ∈ xs, tablePair t p.l.loc = some p) ∧
+      (∀ j, (∀ p ∈ xs, p.l.loc ≠ j) → tablePair t j = none) := by
+  obtain ⟨t, h1, h2, h3, h4⟩ := fillTable_spec xs (List.replicate n none) (by simpa using hb)
+  refine ⟨t, h1, by simpa using h2, ?_, ?_⟩
+  · intro p hp
+    obtain ⟨q, hq, hql, hqt⟩ := h4 p hp
+    have : q = p := eq_of_nodup_map (·.l.loc) xs hd q hq p hp hql
+    subst this
+    simp [tablePair, hqt]
+  · intro j hj
+    have := h3 j hj
+    unfold tablePair
+    rw [this]
+    by_cases hjl : j < n
+    · simp [hjl]
+    · simp [hjl]
+
+/-- the forward lookup of the table is the index set's own `operator[]` (`indexSet_[global]`), so on a reachable set
+with distinct local numbers  `pair(operator[](g).local) = operator[](g)` -/
+theorem reverse_lookup_roundtrip (h : List Op) (hwf : WF h) (hd : ((run h).loc.map (·.l.loc)).Nodup)
+    (p : Pair) (hp : p ∈ (run h).loc) :
+    ∃ t i, lookupAuto (run h).loc = some t ∧ getL (run h).loc p.g = some (i, p) ∧ tablePair t p.l.loc = some p := by
+  obtain ⟨t, h1, _, h3, _⟩ := reverse_lookup_inverts _ hd
+  obtain ⟨i, hi, _⟩ := getElem_found h hwf p hp
+  exact ⟨t, i, h1, hi, h3 p hp⟩
+
+example : ∃ t, lookupAuto (run demo).loc = some t ∧ t.length = 4 ∧
+    (t.map fun c => c.map (·.g)) = [some 2, some 5, some 7, some 9] := by decide
+
+/-! ## state checks -/
+
+/-- every operation called in the wrong state is rejected with InvalidIndexSetState (six cases: beginResize in
+RESIZE; add(g,l), add(g), markAsDeleted, endResize in GROUND; renumberLocal in RESIZE) and the set is unchanged -/
+theorem wrong_state_rejected (s : ISet) :
+    (s.st = .resize → step s .beginResize = (s, .err .invalidState)) ∧
+    (s.st = .ground → ∀ g l a p, step s (.add g l a p) = (s, .err .invalidState)) ∧
+    (s.st = .ground → ∀ g, step s (.addG g) = (s, .err .invalidState)) ∧
+    (s.st = .ground → ∀ i, markAsDeleted s i = .error .invalidState) ∧
+    (s.st = .ground → ∀ g a, (∃ p ∈ s.loc, p.g = g ∧ p.l.attr = a) → step s (.markDel g a) = (s, .err .invalidState)) ∧
+    (s.st = .ground → step s .endResize = (s, .err .invalidState)) ∧
+    (s.st = .resize → step s .renumber = (s, .err .invalidState)) := by
+  refine ⟨?_, ?_, ?_, ?_, ?_, ?_, ?_⟩
+  · intro h; simp [step, beginResize, h, lift]
+  · intro h g l a p; simp [step, add, h, lift]
+  · intro h g; simp [step, add, h, lift]
+  · intro h i; simp [markAsDeleted, h]
+  · intro h g a ⟨p, hp, hpg⟩
+    cases hf : findKey g a s.loc with
+    | none => exact absurd hpg (findKey_none hf p hp)
+    | some i => simp [step, hf, markAsDeleted, h, lift]
+  · intro h; simp [step, endResize, h, lift]
+  · intro h; simp [step, renumberLocal, h, lift]
+
+/-- conversely, in the right state the five mutators are accepted -/
+theorem right_state_accepted (s : ISet) :
+    (s.st = .ground → (step s .beginResize).2 = .ok ∧ (step s .renumber).2 = .ok) ∧
+    (s.st = .resize → (∀ g l a p, (step s (.add g l a p)).2 = .ok) ∧ (step s .endResize).2 = .ok) := by
+  refine ⟨fun h => ?_, fun h => ?_⟩
+  · simp [step, beginResize, renumberLocal, h, lift]
+  · simp [step, add, endResize, h, lift]
+
+/-- whatever operation reports an error (InvalidIndexSetState or RangeError) leaves the whole state as it was -/
+theorem rejected_op_leaves_state (s : ISet) (op : Op) (e : Err) (h : (step s op).2 = .err e) :
+    (step s op).1 = s := by
+  cases op with
+  | beginResize => revert h; simp only [step, beginResize]; split <;> simp [lift]
+  | add g l a p => revert h; simp only [step, add]; split <;> simp [lift]
+  | addG g => revert h; simp only [step, add]; split <;> simp [lift]
+  | markDel g a =>
+    revert h; simp only [step]; split
+    · simp
+    · simp only [markAsDeleted]; split <;> simp [lift]
+  | endResize =>
+    revert h; simp only [step]
+    cases endResize s <;> simp [lift]
+  | renumber => revert h; simp only [step, renumberLocal]; split <;> simp [lift]
+  | setLocal g l =>
+    revert h; simp only [step]; split
+    · split <;> simp
+    · simp
+  | get g => simp only [step]; split <;> rfl
+  | lookupN n => simp only [step]; split <;> rfl
+  | exists_ g => rfl
+  | at_ g => rfl
+  | seqNo => rfl
+  | size => rfl
+  | state => rfl
+  | dump => rfl
+  | lookup => rfl
+
+example : (step (run demo) (.add 1 1 1 true)).2 = .err .invalidState := by decide
+example : (step (run (demo ++ [.beginResize])) .renumber).2 = .err .invalidState := by decide
+
 end DV.C03
